@@ -1,7 +1,7 @@
 (* C05 -- templates that cannot be contextualized never produce output (sticky).
    Only the property theorems; proofs are in proofs/EngineFacts.v.  An exec op of the model answers
    RErrEscape (nothing is written), RExec tid (text/template runs text object tid) or another error. *)
-From V Require Import lib.Base model.TContext model.TTree model.TEscaper model.Engine spec.EngineSpec proofs.EngineFacts.
+From V Require Import lib.Base model.TContext model.TTree model.TEscaper model.Engine spec.EngineSpec proofs.EngineFacts proofs.EngineHistFacts.
 
 (* in EVERY world (reachable or not): once a template carries an analysis error, Execute on it
    returns that error, writes nothing, and the error stays *)
@@ -37,3 +37,38 @@ Definition C05_fresh_full_statement : Prop :=
   forall defs hist name code,
     last_result (defs ++ [OExecuteTemplate 0 name]) = Some (RErrEscape code) ->
     exists code', last_result (defs ++ hist ++ [OExecuteTemplate 0 name]) = Some (RErrEscape code').
+
+(* ---- over histories ---- *)
+(* The calls of a history that the theorem covers, relative to the failed template object o, are
+   [allowed] (proofs/EngineHistFacts.v): every New, Parse, Clone, Lookup, ExecuteTemplate, Templates ...
+   through any handle of any set; t.New(name) only for a name that is not yet defined in t's set
+   (redefinition replaces the template: it is a different template afterwards, finding D40 lives
+   there); Execute through the failed template's own handles, and through every handle whose object
+   is the member its set registers under its own name ([registered]; every handle the API returns
+   is, until its name is redefined -- that invariant of reachable worlds is evaluated on every
+   history of the correspondence run but is not proved, hence _partial). *)
+Theorem C05_sticky_forever_partial : forall w h o code ops,
+  handle w h = Some o -> h_err (get_tmpl w o) = EErr code -> allowed_hist w o ops ->
+  let w' := run_from w ops in
+  handle w' h = Some o /\ h_err (get_tmpl w' o) = EErr code /\
+  snd (step w' (OExecute h)) = RErrEscape code.
+Proof. exact sticky_forever. Qed.
+Print Assumptions C05_sticky_forever_partial.
+
+(* ... and ExecuteTemplate of its name, after that history, through ANY handle of the set *)
+Theorem C05_sticky_forever_by_name_partial : forall w o code ops h' obj' name,
+  h_err (get_tmpl w o) = EErr code -> allowed_hist w o ops ->
+  let w' := run_from w ops in
+  handle w' h' = Some obj' ->
+  assoc_get name (n_set (get_ns w' (h_ns (get_tmpl w' obj')))) = Some o ->
+  snd (step w' (OExecuteTemplate h' name)) = RErrEscape code.
+Proof. exact sticky_forever_by_name. Qed.
+Print Assumptions C05_sticky_forever_by_name_partial.
+
+(* how a template gets there: an Execute that answers with an analysis error has recorded it *)
+Theorem C05_failed_execute_recorded : forall w h o code,
+  handle w h = Some o -> registered w o ->
+  snd (step w (OExecute h)) = RErrEscape code ->
+  h_err (get_tmpl (fst (step w (OExecute h))) o) = EErr code.
+Proof. exact failed_execute_recorded. Qed.
+Print Assumptions C05_failed_execute_recorded.
